@@ -10,7 +10,7 @@ package basicauth
 //@ func GetHtpasswdMatcher
 //@   ensures [lock_balance] held(htpasswordsMu) == old(held(htpasswordsMu))
 
-//@ unit htpasswd_cache props=C03 filter=`basicauth\.GetHtpasswdMatcher$`
+//@ unit htpasswd_cache props=C03,C08 filter=`basicauth\.GetHtpasswdMatcher$`
 //@ // The user table a site authenticates against is the one loaded from ITS password file: the process-wide cache is keyed
 //@ // by the root-joined path, the file opened is that same path, and the matcher returned comes from that entry.
 //@ spec openedName(t int) string
@@ -25,16 +25,22 @@ package basicauth
 //@ extern (*os.File).Name
 //@ extern fmt.Errorf
 //@   ensures result != nil
+//@ ghost parsedOK int
 //@ func parseHtpasswd
-//@   modifies MV:map[string]github.com/tmpim/casket/caskethttp/basicauth.PasswordMatcher, MD:map[string]github.com/tmpim/casket/caskethttp/basicauth.PasswordMatcher
+//@   modifies MV:map[string]github.com/tmpim/casket/caskethttp/basicauth.PasswordMatcher, MD:map[string]github.com/tmpim/casket/caskethttp/basicauth.PasswordMatcher, ghost:parsedOK
+//@   ensures (result == nil) == (parsedOK == 1)
 //@   ensures [only_the_given_table] unchanged_except("map:map[string]github.com/tmpim/casket/caskethttp/basicauth.PasswordMatcher", pm)
 //@ define key() string = filepath.Join(siteRoot, old(filename))
 //@ func GetHtpasswdMatcher
-//@   modifies G:htpasswords, MV:map[string]map[string]github.com/tmpim/casket/caskethttp/basicauth.PasswordMatcher, MD:map[string]map[string]github.com/tmpim/casket/caskethttp/basicauth.PasswordMatcher, MV:map[string]github.com/tmpim/casket/caskethttp/basicauth.PasswordMatcher, MD:map[string]github.com/tmpim/casket/caskethttp/basicauth.PasswordMatcher, ghost:opens, ghost:held
+//@   requires parsedOK == 0
+//@   modifies ghost:parsedOK, G:htpasswords, MV:map[string]map[string]github.com/tmpim/casket/caskethttp/basicauth.PasswordMatcher, MD:map[string]map[string]github.com/tmpim/casket/caskethttp/basicauth.PasswordMatcher, MV:map[string]github.com/tmpim/casket/caskethttp/basicauth.PasswordMatcher, MD:map[string]github.com/tmpim/casket/caskethttp/basicauth.PasswordMatcher, ghost:opens, ghost:held
 //@   ensures [cached_under_joined_path] result1 == nil ==> (htpasswords != nil && has(htpasswords, key()) && htpasswords[key()] != nil)
 //@   ensures [matcher_from_this_files_table] result1 == nil ==> result0 == htpasswords[key()][username]
 //@   ensures [loads_the_joined_path] opens == old(opens) || (opens == old(opens) + 1 && openedName(old(opens)) == key())
 //@   ensures [other_entries_kept] forallT(k, string, (k != key() && old(htpasswords != nil && has(htpasswords, k))) ==> (has(htpasswords, k) && htpasswords[k] == old(htpasswords[k])))
+//@   // C08: the process-wide cache only ever gains the table of a file that parsed completely (a malformed file leaves no
+//@   // partial table behind, so the repaired file loads afterwards as in a fresh process)
+//@   ensures [only_fully_parsed_files_are_cached] forallT(k, string, (has(htpasswords, k) && !old(htpasswords != nil && has(htpasswords, k))) ==> (k == key() && parsedOK == 1))
 
 //@ unit basicauth_handler props=C03,C12,C19 filter=`BasicAuth\)\.ServeHTTP$`
 //@ ghost calledNext int
